@@ -138,6 +138,12 @@ func runC07(c *Ctx) {
 	c04Blocking(c, k)
 	k.checkBlockingForwarders("blocking-report-forwarded")
 
+	c07SetSourceOrder(c)
+}
+
+// c07SetSourceOrder: the setsource-order rule (shared with C20).
+func c07SetSourceOrder(c *Ctx) {
+	w := c.W
 	// ---- setsource-order -----------------------------------------------------------------
 	ss := w.fn("sourcewrap", "Blank.SetSource")
 	if !c.need(ss != nil, "sourcewrap.Blank.SetSource") {
